@@ -32,7 +32,10 @@ H2Protocol / stream classes on the virtual-time asyncio loop and on instrumented
 Oracle clauses
   handler-exception / loop-exception-handler
         the per-connection server task ended with an exception / the loop's exception handler was called.
-        key = <carrier>:<ExceptionType>@<innermost hypercorn function>
+        key = <carrier>:<ExceptionType>@<innermost hypercorn file:function>[<protocol event being dispatched>]
+  handler-stuck-with-exception   (asyncio)
+        at final quiescence the server task is parked in TaskGroup.__aexit__ carrying an exception while a child
+        that can never finish keeps it (and the socket) alive for ever; same key format.
   h1-malformed-no-hinted-response / h1-malformed-not-closed
         a fresh h11 server connection (reference, mc.x_c04_ref.h1_expect) calls the bytes malformed while plain
         HTTP/1 request syntax is still expected: the n-th response must carry exactly the hinted status and the
@@ -44,7 +47,11 @@ Oracle clauses
         the client stayed within RFC 7540 (reference raises nothing, no client GOAWAY): every stream carrying a
         complete ordinary request that the client did not reset gets 200 + full body + END_STREAM (only the
         status is demanded once the client shrank its window below the body size); a sibling that could not even
-        be sent because the server closed the connection counts as incomplete.
+        be sent because the server closed the connection counts as incomplete.  Streams that are themselves the
+        unusual request are never judged ("affects at most its own stream").  key = h2:<oddities sent so far>
+        (other-stream-incomplete) or h2:<request kind>:<what is missing> (stream-not-served: no oddity involved).
+  Once an execution has reported an internal error the not-closed clauses are not evaluated for it (the connection
+  is already dead or stuck; one root cause, one report).
 """
 from __future__ import annotations
 
@@ -86,7 +93,7 @@ BOUNDS_DOC = {
     "quick": "short strings len<=3; mutations: all on asyncio, 4 operators on trio; splices whole+split (trio whole); "
              "floods of 1100 frames; odd: M<=1,S<=2; grammar BFS depth 3 on asyncio, 2 on trio",
     "thorough": "short strings len<=4 (asyncio; 3 on trio); all mutations on both engines with EOF and idle-timer "
-                "endings; splices; floods of 1100 frames; odd: M<=2,S<=3,R<=1; grammar BFS depth 5 on asyncio, 4 on trio",
+                "endings; splices; floods of 1100 frames; odd: M<=2,S<=3 (trio: M<=1,S<=3,R<=1); grammar BFS depth 5 on asyncio, 4 on trio",
 }
 BUDGET = {"quick": 90, "thorough": 1200}
 
@@ -154,7 +161,9 @@ def scenarios(tier: str) -> List[Any]:
 def bounds(tier: str, params: Any) -> dict:
     if tier == "quick":
         return {"M": 1, "S": 2, "R": 0}
-    return {"M": 2, "S": 3, "R": 1 if params[1] == "trio" else 0}
+    if params[1] == "trio":
+        return {"M": 1, "S": 3, "R": 1}
+    return {"M": 2, "S": 3, "R": 0}
 
 
 # ---------------------------------------------------------------------------------------------
@@ -280,7 +289,7 @@ def judge_bytes(w: Any, conn: dict) -> List[dict]:
     out = generic_violations(w) + _internal(w, tag)
     rec = w.conns[0]
     segs, eof, ending = _fired_bytes(w)
-    if conn.get("alpn") == "h2":
+    if conn.get("alpn") == "h2" or conn["carrier"] == "h2pk":  # h2pk: cleartext prior knowledge, same framing
         err = h2_expect(segs)
         broken = any(v["clause"].startswith("handler-") for v in out)  # already dead/stuck: reported above
         if err is not None and not broken and (ending or rec.closed_at is None):
